@@ -268,6 +268,10 @@ class Env:
                 return self._at5_zone(sid)
             if kind == "bad_struct":
                 return self._at5_zone(sid, bad=True)
+            if kind == "bad_attr":
+                m = self._at5_zone(sid)
+                m.sub_message.zone_control[0].zone_power = None
+                return m
             if kind == "bad_notimpl":
                 from pyairtouch import comms
                 return comms.UnsupportedMessage(unsupported_id=0x77, raw_data=b"")
@@ -277,7 +281,7 @@ class Env:
         import pyairtouch.at5.comms.xC0_ctrl_status as cs
         zc = self.zc
         setting = zc.ZoneSetPointControl(set_point=5.0) if bad else zc.ZoneDamperControl(open_percentage=(sid // 16) % 101)
-        sub = zc.ZoneControlMessage(zones=[zc.ZoneControlData(zone_number=sid % 16, zone_setting=setting, power=zc.ZonePowerControl.UNCHANGED)])
+        sub = zc.ZoneControlMessage(zone_control=[zc.ZoneControlData(zone_number=sid % 16, zone_power=zc.ZonePowerControl.UNCHANGED, zone_setting=setting)])
         return cs.ControlStatusMessage(sub)
 
     def expected_frame(self, header, message):
@@ -299,7 +303,10 @@ class Env:
         S = self.S
         retries, life = POLICIES[policy]
         pol = S.RetryPolicy(max_retries=retries, max_lifetime=life * TICK)
-        msg = self.make_message(sid, kind)
+        try:
+            msg = self.make_message(sid, kind)
+        except Exception as e:  # noqa: BLE001
+            raise RuntimeError("harness cannot build message %r/%r: %r" % (sid, kind, e)) from e
         self.rec.msg_sid[id(msg)] = sid
         self.rec.keep.append(msg)
         now = ticks(self.loop.time())
@@ -470,6 +477,9 @@ class Env:
                 self.sock._writer is not None and self.sock._writer.transport is c)],
             "unhandled": [str(c.get("message")) for c in self.loop.unhandled],
         }
+        for t in self.api_tasks:
+            if t.done() and not t.cancelled() and t.exception() is not None:
+                raise RuntimeError("harness API task failed: %r" % (t.exception(),))
         for t in tasks:
             t.cancel()
         await asyncio.sleep(0)
